@@ -45,6 +45,7 @@ TETRAS = {
     "unit": [(0, 0, 0), (1, 0, 0), (0, 1, 0), (0, 0, 1)],
     "unit-neg": [(0, 0, 0), (0, 1, 0), (1, 0, 0), (0, 0, 1)],  # negative chirality: exercises check_chirality
     "sliver": [(1, 2, -1), (3, 2, -1), (2, 5, -1), (2, 3, -0.75)],
+    "flat": [(0, 0, 0), (1, 0, 0), (0, 1, 0), (1, 1, 0)],  # zero volume (accepted by the setter): no point is inside, J = 0 everywhere
 }
 POLY_SEGMENTS = {"axis": ((0, 0, 0), (1, 0, 0)), "oblique": ((1, -1, 0), (3, 0, 2)), "degenerate": ((1, 2, 3), (1, 2, 3))}
 MAGNETS = ["cuboid", "cylinder", "sphere", "cylseg", "cylseg_internal", "tetra"]
@@ -122,6 +123,8 @@ def inside_outside(name, A, i):
         e = [[v[k][c] - v[0][c] for c in range(3)] for k in (1, 2, 3)]
         p = [o[c] - v[0][c] for c in range(3)]
         D = det(*e)
+        if z3.is_true(z3.simplify(D == 0)):
+            return z3.BoolVal(False), z3.BoolVal(True), []  # a flat tetrahedron has no inside
         l1, l2, l3 = det(p, e[1], e[2]), det(e[0], p, e[2]), det(e[0], e[1], p)
         # barycentric coordinates lambda_k = l_k / D  (Cramer); multiply through by sign(D)
         sgn = z3.If(D > 0, z3.RealVal(1), z3.RealVal(-1))
@@ -227,6 +230,8 @@ def run_case(case, info):
     for k, v in case.get("fixed", {}).items():
         A[k] = oarr(np.array(v, dtype=float))
     pre = w.pre_all(A)
+    if name == "tetra" and "flat" in case["id"]:
+        pre = []  # the non-degeneracy precondition is what this case drops on purpose
     CTX.pre = list(pre)
     mod = importlib.import_module(w.module)
     MU0 = toz(mod.MU0)
@@ -311,7 +316,9 @@ def _validate(C, w, A, run):
         finally:
             install.install()
             apply_cuts(w.cuts)
-        ok = all(rel_close(got[f], ref[f], 1e-9, 1e-300) for f in "BH")
+        # (a flat tetrahedron's field is exact cancellation: compare the rounding noise with an absolute tolerance scaled to the H values)
+        atol = {"B": 1e-12, "H": 1e-6} if "flat" in C.case["id"] else {"B": 1e-300, "H": 1e-300}
+        ok = all(rel_close(got[f], ref[f], 1e-9, atol[f]) for f in "BH")
         if ok:
             C.validated += 1
         else:
@@ -485,7 +492,8 @@ def replay(spec):
     f = {x: np.asarray(w.call_float(x, args), dtype=float) for x in "BHJM"}
     scale = max(np.abs(f["B"]).max(), np.abs(mu0 * f["H"]).max(), np.abs(f["J"]).max(), 1e-300)
     desc = f"{w.func}({ {k: v for k, v in args.items()} }): B={f['B'].tolist()} H={f['H'].tolist()} J={f['J'].tolist()}"
-    if not all(np.all(np.isfinite(v)) for v in f.values()):
+    used = "J" if kind in ("J=0", "J-inside", "J-outside") else ("JM" if kind == "J=mu0M" else "BHJ")
+    if not all(np.all(np.isfinite(f[x])) for x in used):
         return False, "non-finite output (not a C02 matter): " + desc
     if kind == "B=mu0H+J":
         d = np.abs(f["B"] - mu0 * f["H"] - f["J"]).max()
@@ -540,6 +548,9 @@ def _geo_float(name, args):
         elif name == "tetra":
             v = np.asarray(args["vertices"][i], dtype=float)
             T = (v[1:] - v[0]).T
+            if np.linalg.det(T) == 0:
+                res.append("outside")  # a flat tetrahedron has no inside
+                continue
             lam = np.linalg.solve(T, o - v[0])
             if np.all(lam > eps) and lam.sum() < 1 - eps:
                 g = "inside"
